@@ -5,7 +5,9 @@ Model-based (stateful) check.  One rule-based machine drives a real deepali tran
 `grid(g)` / `condition(...)` / `unlink()` copy, inverse, linked inverse, another transform linked to P
 by `link()` / `link_()`) and a transform derived from S (the *tertiary* T: link to a linked transform,
 copy / inverse / unlinked copy of a linked transform) - through a generated history of replacing,
-in-place, re-gridding, re-conditioning, resetting, updating and observing operations.
+in-place, re-gridding, re-conditioning, resetting, updating and observing operations.  Derived transforms are also
+`data(arg)` copies, a SequentialTransform built around the transform (which shares the member OBJECT) and the inverse of
+that wrapper; the inverse is also taken through the convenience property `.inv`.
 Next to the real objects it keeps a plain-python MODEL of what each transform *holds*:
 
     (class, constructor options, grid descriptor, parameter VALUE (own clone, with the identity of
@@ -26,6 +28,14 @@ shares no history with the object under test, and must agree with it on generate
 `grid_`, `condition_`, `fit` - on `tensor()` / `disp()` without an intervening call.  After an
 in-place edit the cached fields are only compared again after `update()`, a call, or an operation
 that clears the buffers (documented contract of `SpatialTransform.update`).
+
+Whether the new state is LOOKED AT directly after a replacing / resetting / deriving operation is part of the generated
+history (`observe`: tensor()+disp(), one read path, the public buffers only, or nothing).  A state "buffers cleared,
+nothing recomputed" therefore persists into the following operations - in particular into the derivation of inverses
+(`inverse(link, update_buffers=True)` exponentiates the buffered velocity field `v` of the source), copies and wrappers -
+and every transform under test is read through every path: a call, a call through a PointSetTransformer, `tensor()`,
+`disp()`, `flow()`, `points(x)` (none of the last four runs the pre-forward hook) and the public buffers `u` / `v`
+(if they exist while the cached state is defined, they hold the field of the current parameters).
 
 Re-gridding is checked against an independent float64 model: the expected parameters of a dense
 model on the new grid are the multilinear interpolation (vlib.ref.interp) of the old parameters at
@@ -56,9 +66,12 @@ MANIFEST = {
             "facet for GenericSpatialTransform) over histories of data_ (same / other batch size), the public setters offset_ / "
             "angles_ / scales_ / matrix_, in-place edits of parameters or of the tensor a parameter callable (function or "
             "torch.nn.Module) closes over, grid_ (dense re-gridding to arbitrary grids incl. align_corners-only changes, B-spline "
-            "subdivision), condition_, reset_parameters, update, call, disp/tensor, clear_buffers, fit, unlink_ + data_, "
+            "subdivision), condition_, reset_parameters, update, call (also through a PointSetTransformer), disp/tensor/flow/"
+            "points and the public buffers u/v, clear_buffers, fit, unlink_ + data_, "
             "construction without parameters (params=None) with later assignment, shallow copies, grid(g)/condition(...)/unlink() "
-            "copies (also through SpatialTransformer), inverse(link, update_buffers), link()/link_() of another transform of "
+            "copies (also through SpatialTransformer), data(arg) copies, inverse(link, update_buffers) and the property .inv, a "
+            "SequentialTransform built around the transform (sharing the member object) and its inverse, link()/link_() of "
+            "another transform of "
             "the same type (own tensor / Parameter / callable / no parameters, buffers already computed or not, other grid of "
             "the same size), and of transforms derived from a derived transform (link to a linked transform, copy / inverse / "
             "unlinked copy of a linked transform) for displacement/velocity fields (stride, resize, steps, scale), FFD/SVFFD "
@@ -68,7 +81,11 @@ MANIFEST = {
             "with a twin built freshly through the constructor from the modelled parameters/grid/conditioning: a LINKED "
             "transform must use what its partner's data() returns at that moment (the partner's current tensor, also after it "
             "was replaced), a shallow copy of a Parameter-held transform the Parameter in the shared container; right after "
-            "replacing/resetting operations also tensor()/disp() without a call; re-gridding is compared with an independent "
+            "replacing/resetting operations also tensor()/disp()/flow()/points() without a call.  Whether the new state is "
+            "looked at directly after such an operation is generated, so inverses (update_buffers=True / .inv), copies and "
+            "wrappers are also derived while the buffers are cleared and nothing has been recomputed, and are then read "
+            "without having been called; buffers u / v that exist while the cached state is defined (after a clearing "
+            "operation or an update) must hold the field of the current parameters; re-gridding is compared with an independent "
             "float64 interpolation model and spline subdivision at coincident samples.  GenericSpatialTransform: the members "
             "hold the prediction assigned by the last update()/call, its linked inverse uses exactly those, its unlinked "
             "inverse its own prediction.  Exploration, not proof: histories of <= 20 (quick) / 30 (thorough) rule applications "
@@ -105,8 +122,21 @@ ASSUMPTIONS = [
     "tensor / callable / nothing while an UNLINKED shallow copy of it is observed (which object `params` of such a copy "
     "resolves to afterwards is a torch.nn.Module lookup-order detail, not documented behaviour); LINKED transforms must keep "
     "following their partner across such a change (finding N09-7)",
-    "data(arg) of linked / Module-held transforms is left to C07 (finding N07-2); `.inv` is generated as "
-    "inverse(link=True, update_buffers=True), which is what it is implemented as, the property itself is not used",
+    "data(arg) copies are generated for tensor- / Parameter-held unlinked transforms only, data(arg) of linked / Module-held "
+    "transforms is left to C07 (finding N07-2); the convenience property `.inv` ('x = transform.inv(y)', no caveat about "
+    "update()) is modelled as inverse(link=True, update_buffers=True): derived from a transform whose buffers are up to date "
+    "it must be readable through tensor()/disp()/flow()/points() at once, like that inverse",
+    "an inverse created with update_buffers=False from a transform that has buffers, and any derived transform whose source "
+    "was edited in place and not updated, is only compared after its own update() / call (inverse docstring: 'update() "
+    "... has to be called before it is used'); its accessors are exercised but not compared before that",
+    "public buffers: `u` / `v` are compared only if they exist (NonRigidTransform.update: u required, v optional) and only "
+    "while the cached state is defined by the contract - after an operation that clears the buffers (clear_buffers: 'clear "
+    "any buffers that are registered by update()') or after update() / a call; absence is never a violation",
+    "after grid_() of a transform with callable parameters to ANOTHER grid the new state is always looked at (the buffered "
+    "prediction keeps the size of the old grid until the transform predicts again; nothing is derived from it before)",
+    "the SequentialTransform wrapper is built on the grid of the wrapped transform and dropped with the other derived "
+    "transforms when that changes its grid; PointSetTransformer is used with its default domain arguments and compared "
+    "with a PointSetTransformer around the twin",
     "GenericSpatialTransform: the constructor passes scaling_and_squaring_steps on to an SVF only (SVFFD keeps the default "
     "number of steps) - modelled as implemented, not asserted; flip_grid_coords only without a rotation member",
     "grids whose reshape to the strided parameter grid trips the Grid._resize assertion (F19, property C03) are not used "
@@ -589,11 +619,11 @@ def inits(draw, family):
     if family == "dense":
         init["grid"] = draw(c09_grids(D))
         kind = draw(st.sampled_from(["ddf", "svf"]))
-        init["units"] = [draw(callable_specs(D, kind)) if draw(st.integers(0, 3)) == 0 else draw(unit_specs(kind, D))]
+        init["units"] = [draw(callable_specs(D, kind)) if draw(st.integers(0, 2)) == 0 else draw(unit_specs(kind, D))]
     elif family == "spline":
         init["grid"] = draw(c09_grids(D, ac=True, max3=5, max2=8))
         kind = draw(st.sampled_from(["ffd", "svffd"]))
-        init["units"] = [draw(callable_specs(D, kind)) if draw(st.integers(0, 3)) == 0 else draw(unit_specs(kind, D))]
+        init["units"] = [draw(callable_specs(D, kind)) if draw(st.integers(0, 2)) == 0 else draw(unit_specs(kind, D))]
     elif family == "callable":
         init["grid"] = draw(c09_grids(D))
         init["units"] = [draw(callable_specs(D))]
@@ -669,6 +699,11 @@ class Subject:
             return self.units[0].twin(values[0])
         S = _sp()
         return S.SequentialTransform(make_grid(self.grid), *[u.twin(v) for u, v in zip(self.units, values)])
+
+    def members(self, real=None):
+        """The elementary deepali transforms of `real` (default: the transform under test), aligned with `units`."""
+        real = self.real if real is None else real
+        return list(real.transforms()) if self.composite else [real]
 
 
 class C09Machine(VMachine):
@@ -822,22 +857,39 @@ class C09Machine(VMachine):
         registers for a partner without parameters: the intermediate transform has to be updated first."""
         return (u.pref is None or u.pref.valid) and (u.link is None or u.link.data_cell().valid)
 
-    def obs_call(self, sub: Subject, x, tag):
+    def obs_call(self, sub: Subject, x, tag, via=None):
         if not all(u.link is None or u.link.data_cell().valid for u in sub.units):
             self.labels.add("placeholder-not-evaluated")
             return
-        y = sub.real(x)
+        if via == "transformer":
+            # documented (SpatialTransformer, PointSetTransformer): the transformer "invokes the spatial transform as a
+            # functor", i.e. with the pre-forward hook that runs update(); with the default domain arguments it "performs
+            # the same operation as SpatialTransform.points" on points given w.r.t. the grid of the transform
+            y = _sp().PointSetTransformer(sub.real)(x)
+            tag = tag + "transformer_"
+            self.labels.add("read=transformer-call")
+        else:
+            y = sub.real(x)
         for u in sub.units:
             self.refresh_unit(u)
         if not all(u.settled() for u in sub.units):
             self.labels.add("chain=unsettled-not-compared")
             return
         tw = sub.twin([u.current() for u in sub.units])
-        e = tw(x)
+        e = _sp().PointSetTransformer(tw)(x) if via == "transformer" else tw(x)
         self.compared()
         if any(u.link is not None for u in sub.units):
             self.labels.add("linked-call-compared")
         self.close(y, e, f"{tag}call_mismatch:after={self.last_change(sub)}", f"{self.describe(sub)}(x) vs fresh twin")
+
+    def read(self, t, w):
+        """Read paths that do not run the pre-forward hook: tensor(), disp(), flow() (FlowFields of disp()) and points(x)
+        (documented: maps the points to the axes of the transform and applies forward(), i.e. the buffered tensor())."""
+        if w == "flow":
+            return t.flow().tensor()
+        if w == "points":
+            return t.points(self.x)
+        return getattr(t, w)()
 
     def obs_fields(self, sub: Subject, tag, which=("tensor", "disp")):
         vals = [u.observable() for u in sub.units]
@@ -845,17 +897,59 @@ class C09Machine(VMachine):
             # not defined by the contract: exercise the accessors only (not while buffer p is a placeholder)
             if all(self.usable(u) for u in sub.units):
                 for w in which:
-                    getattr(sub.real, w)()
+                    self.read(sub.real, w)
                 self.settle(sub)
             return False
         tw = sub.twin(vals)
         for w in which:
-            a = getattr(sub.real, w)()
-            e = getattr(tw, w)()
+            a = self.read(sub.real, w)
+            e = self.read(tw, w)
             self.compared()
+            self.labels.add("read=" + w + ("/buffers-cleared" if any(u.buf == "none" for u in sub.units) else ""))
             self.close(a, e, f"{tag}{w}_mismatch:after={self.last_change(sub)}", f"{self.describe(sub)}.{w}() vs fresh twin")
         self.settle(sub)
         return True
+
+    def obs_attrs(self, sub: Subject, tag):
+        """The public buffers of the non-rigid members read as attributes (NonRigidTransform.update: `u` displacement
+        field, `v` velocity field "can be used in a regularization term"): a buffer that EXISTS while the cached state is
+        defined (cleared by a replacing / resetting operation - `clear_buffers` "clears any buffers that are registered by
+        update()" - or refreshed by update() / a call) must hold the field of the current parameters; it may be absent.
+        Reading an attribute never updates anything, so the state of the model is unchanged."""
+        vals = [u.observable() for u in sub.units]
+        if any(v is None for v in vals) or not any(u.nonrigid for u in sub.units):
+            return False
+        tw = sub.twin(vals)
+        tw.update()
+        real_members, twin_members = sub.members(), sub.members(tw)
+        if len(real_members) != len(sub.units):
+            raise Violation(tag + "composite_members", f"{self.describe(sub)} has {len(real_members)} members, model {len(sub.units)}")
+        for u, m, t in zip(sub.units, real_members, twin_members):
+            if not u.nonrigid:
+                continue
+            for name in ("u", "v"):
+                a, e = getattr(m, name, None), getattr(t, name, None)
+                if a is None or e is None:
+                    continue
+                self.compared()
+                self.labels.add(f"read=attr-{name}/" + ("after-clearing" if u.buf == "none" else "after-update"))
+                self.close(a, e, f"{tag}buffer_{name}_stale:after={self.last_change(sub)}",
+                           f"{self.describe(sub)}: existing buffer '{name}' of {u.cls} vs updated fresh twin (state {u.buf})")
+        return True
+
+    def observe(self, sub: Subject, tag, op):
+        """Observation that directly follows a replacing / resetting / deriving operation, chosen by the history:
+        'fields' (tensor() and disp(), the default), one read path ('tensor', 'disp', 'flow', 'points'), 'attrs' (public
+        buffers only, nothing is updated) or 'none' (the cleared / derived state is left as it is for the next operations)."""
+        mode = op.get("observe", "fields")
+        if mode == "none":
+            self.labels.add("observe=deferred")
+        elif mode == "attrs":
+            self.obs_attrs(sub, tag)
+        elif mode == "fields":
+            self.obs_fields(sub, tag)
+        else:
+            self.obs_fields(sub, tag, which=(mode,))
 
     def refresh_unit(self, u: Unit):
         """Model effect of update()/a call on unit u, incl. transforms linked to its buffered parameters `p`."""
@@ -929,10 +1023,10 @@ class C09Machine(VMachine):
     def target(self, op) -> Unit:
         return self.P.units[int(op.get("target", 0)) % len(self.P.units)]
 
-    def after_replacing(self, name):
+    def after_replacing(self, name, op):
         self.P.last = name
         self.changed(name)
-        self.obs_fields(self.P, "")
+        self.observe(self.P, "", op)
 
     def owner(self, op) -> Unit:
         """Target unit, or - for a linked member of a composite - the unit whose parameters it uses."""
@@ -960,7 +1054,7 @@ class C09Machine(VMachine):
         u.N = N
         u.buf = "none" if u.nonrigid else "na"
         self.replaced(u)
-        self.after_replacing("data_")
+        self.after_replacing("data_", op)
 
     def op_set(self, op):
         """Replace the parameters through the public setter of a linear transform (offset_/angles_/scales_/matrix_).
@@ -984,7 +1078,7 @@ class C09Machine(VMachine):
         u.N = N
         self.replaced(u)
         self.labels.add("setter=" + name)
-        self.after_replacing("set")
+        self.after_replacing("set", op)
 
     def op_edit(self, op):
         u = self.owner(op)
@@ -1030,7 +1124,7 @@ class C09Machine(VMachine):
             u.buf = "none" if u.nonrigid else "na"
             self.touched_cell(u.slot.cell, u)
             self.stale_links(u)
-        self.after_replacing("reset")
+        self.after_replacing("reset", op)
 
     def regrid_unit(self, u: Unit, real, g2: dict, tag: str):
         """real.grid_(g2) on unit model u (dense: independent expectation; spline: subdivision)."""
@@ -1123,7 +1217,8 @@ class C09Machine(VMachine):
             gobj, want = u.real.grid(), make_grid(g2)
             if not (gobj == want and gobj.align_corners() == want.align_corners()):
                 raise Violation("grid_not_set", f"{u.cls}.grid_(g) with callable parameters: grid() is {gobj!r}, requested {want!r}")
-            if not same_desc(g2, u.grid):
+            same = same_desc(g2, u.grid)
+            if not same:
                 u.buf = "none"
             elif u.buf == "fresh":
                 u.buf = "stale"  # same grid, other prediction: like an in-place edit
@@ -1131,7 +1226,12 @@ class C09Machine(VMachine):
             self.P.grid = g2
             self.P.last = "grid_"
             self.changed("grid_")
-            self.obs_fields(self.P, "")
+            if not same and op.get("observe", "fields") in ("none", "attrs"):
+                # the buffered prediction `p` still has the size of the old grid: the transform has to predict again before
+                # anything derived from it can read its (buffered) parameters - the new state is always looked at here
+                self.obs_fields(self.P, "")
+            else:
+                self.observe(self.P, "", op)
             return
         if u.dense and u.current().shape[0] > 1 and f21_open():
             raise Skip("F21")
@@ -1140,10 +1240,14 @@ class C09Machine(VMachine):
         self.P.grid = g2
         self.P.last = "grid_"
         self.changed("grid_")
+        if op.get("observe", "fields") in ("none", "attrs"):
+            # the re-gridded parameters were compared above; the cleared buffers are left for the next operations
+            self.observe(self.P, "", op)
+            return
         self.obs_fields(self.P, "", which=("tensor",))
         if u.spline and dims:
             self.check_subdivision(u, u.real, old, dims, "")
-        self.obs_fields(self.P, "", which=("disp",))
+        self.obs_fields(self.P, "", which=("disp",) if op.get("observe", "fields") in ("fields", "tensor") else (op["observe"],))
 
     def op_condition_(self, op):
         args = [torch.tensor(float(a)) for a in op["args"]]
@@ -1160,7 +1264,7 @@ class C09Machine(VMachine):
                 u.buf = "stale" if self.route("K5") else "fresh"
                 if u.buf == "fresh":
                     self.labels.add("K5-observed")
-        self.after_replacing("condition_")
+        self.after_replacing("condition_", op)
 
     def op_update(self, op):
         self.P.real.update()
@@ -1184,7 +1288,7 @@ class C09Machine(VMachine):
             if u.nonrigid:
                 u.buf = "none"
         self.changed("clear_buffers")
-        self.obs_fields(self.P, "")
+        self.observe(self.P, "", op)
 
     def op_fit(self, op):
         from deepali.core import Axes
@@ -1218,7 +1322,7 @@ class C09Machine(VMachine):
         u.slot.cell = Cell(got.clone())
         u.buf = "none"
         self.replaced(u)
-        self.after_replacing("fit")
+        self.after_replacing("fit", op)
 
     # ---- derived transforms (S from P, T from S) -------------------------------------------
     def need_unit(self):
@@ -1232,9 +1336,9 @@ class C09Machine(VMachine):
             raise Skip("no " + who)
         return s
 
-    def make_sub(self, who, units, real, how, grid=None):
+    def make_sub(self, who, units, real, how, grid=None, composite=None):
         src = self.P if who == "S" else self.S
-        sub = Subject(units, grid or src.grid, src.composite, real)
+        sub = Subject(units, grid or src.grid, src.composite if composite is None else composite, real)
         sub.how = how if who == "S" else "t:" + how
         sub.last = how
         if not sub.composite:
@@ -1281,7 +1385,7 @@ class C09Machine(VMachine):
         s = u.derive()
         s.real = _copy.copy(u.real)
         sub = self.make_sub(who, [s], s.real, "copy")
-        self.obs_fields(sub, who.lower() + "_")
+        self.observe(sub, who.lower() + "_", op)
 
     def op_grid_copy(self, op):
         u = self.need_unit()
@@ -1392,10 +1496,20 @@ class C09Machine(VMachine):
                 raise Skip("not invertible")
             if u.cls == "HomogeneousTransform":
                 raise Skip("HomogeneousTransform (matrix inversion is not part of this property)")
-        real = src.real.inverse(link=link, update_buffers=ub)
+        if op.get("via") == "inv":
+            if not (link and ub):
+                raise Skip("the property `inv` is inverse(link=True, update_buffers=True)")
+            # documented convenience property ("x = transform.inv(y)"); its getter is invoked directly so that an
+            # AttributeError raised inside deepali is not re-labelled by torch.nn.Module.__getattr__
+            real = type(src.real).inv.fget(src.real)
+            self.labels.add("inverse=inv-property")
+        else:
+            real = src.real.inverse(link=link, update_buffers=ub)
         units = [self.inverse_unit(u, link, ub) for u in (reversed(src.units) if src.composite else src.units)]
         sub = self.make_sub(who, units, real, "inverse/link" if link else "inverse")
-        self.obs_fields(sub, who.lower() + "_")
+        if ub and any(u.buf == "none" and u.nonrigid for u in units):
+            self.labels.add("inverse=update_buffers/source-cleared")
+        self.observe(sub, who.lower() + "_", op)
 
     def op_link_other(self, op):
         """Another transform Q of the same type (own parameters / callable / none, buffers possibly computed already)
@@ -1468,7 +1582,71 @@ class C09Machine(VMachine):
         q.net = q.net_model = None
         sub = self.make_sub(who, [q], real, "link_" if inplace else "link", grid=g)
         self.labels.add("link-other:q=" + qh + "/" + prep)
-        self.obs_fields(sub, who.lower() + "_")
+        self.observe(sub, who.lower() + "_", op)
+
+    def op_wrap(self, op):
+        """A SequentialTransform built around the source transform: the SAME object is its member (optionally next to a
+        Translation of its own), so evaluating / updating the wrapper evaluates / updates the member it shares with the
+        source, and the source's replaced parameters are the wrapper's.  Its inverse (derived from it like any other
+        inverse) holds inverse(link, update_buffers) copies of the members."""
+        S = _sp()
+        who = op.get("who", "S")
+        src = self.P if who == "S" else self.sub("S")
+        if src.composite:
+            raise Skip("composite")
+        u = src.units[0]
+        units, reals = [u], [src.real]
+        ex = op.get("extra")
+        if ex:
+            e = Unit({"kind": "lin", "cls": "Translation", "opts": {}, "holder": "buffer", "N": 1}, u.grid)
+            v = e.content(ex["fill"], 1)
+            e.slot = Slot(Cell(v.clone()))
+            e.buf = "na"
+            e.real = e.build(v)
+            e.independent = True
+            at = 0 if ex.get("pos") == "before" else 1
+            units.insert(at, e)
+            reals.insert(at, e.real)
+        real = S.SequentialTransform(make_grid(u.grid), *reals)
+        sub = self.make_sub(who, units, real, "wrap", grid=u.grid, composite=True)
+        self.observe(sub, who.lower() + "_", op)
+
+    def op_data_copy(self, op):
+        """src.data(arg): "shallow copy with specified parameters".  The copy must evaluate the given parameters - also
+        through tensor()/disp() right away, no buffer computed by the source may survive in it - and the source keeps
+        its own (observed by the following operations)."""
+        who = op.get("who", "S")
+        src = self.P if who == "S" else self.sub("S")
+        if src.composite:
+            raise Skip("composite")
+        u = src.units[0]
+        if u.holder == "callable" or u.link is not None:
+            raise Skip("data(arg) of linked / callable-held transforms is left to C07")
+        N = int(op.get("N", u.batch()))
+        new = u.content(op["fill"], N)
+        real = src.real.data(new.clone())
+        if real is src.real:
+            raise Violation("data_copy_not_a_copy", "data(arg) returned the transform it was called on")
+        s = u.derive()
+        s.slot = Slot(Cell(new.clone()))  # _copy_with_own_parameters: own container of parameters
+        s.N = N
+        s.buf = "none" if s.nonrigid else "na"
+        sub = self.make_sub(who, [s], real, "data_copy")
+        self.observe(sub, who.lower() + "_", op)
+
+    def op_read(self, op):
+        """One read path of P / S / T: tensor(), disp(), flow(), points(x) (none of them runs the pre-forward hook), the
+        public buffers u / v, or a call through a PointSetTransformer created for the occasion."""
+        who = op.get("who", "P")
+        sub = self.sub(who)
+        tag = "" if who == "P" else who.lower() + "_"
+        how = op["how"]
+        if how == "attrs":
+            self.obs_attrs(sub, tag)
+        elif how == "tcall":
+            self.obs_call(sub, self.x, tag, via="transformer")
+        else:
+            self.obs_fields(sub, tag, which=(how,))
 
     def op_unlink_copy(self, op):
         """src.unlink() returns a shallow copy without parameters (src itself keeps its parameters / link); the copy
@@ -1534,7 +1712,7 @@ class C09Machine(VMachine):
             self.make_sub("S", [m], real, name)
         self.labels.add("late=" + how)
         self.changed("restart_late")
-        self.obs_fields(self.P, "")
+        self.observe(self.P, "", op)
 
     def inverse_unit_late(self, u: Unit) -> Unit:
         m = u.derive()
@@ -1549,7 +1727,7 @@ class C09Machine(VMachine):
         """P.unlink_() followed by P.data_(new): P holds the new tensor, transforms linked to P follow it."""
         u = self.need_unit()
         for d in (self.S, self.T):
-            if d is not None and any(v.link is None and v.slot is not None and v.slot is u.slot for v in d.units):
+            if d is not None and any(v is not u and v.link is None and v.slot is not None and v.slot is u.slot for v in d.units):
                 # in-place unlink_ of a transform whose parameter container is shared with shallow copies: what the
                 # copies hold afterwards is not documented
                 self.drop_secondary()
@@ -1562,7 +1740,7 @@ class C09Machine(VMachine):
         # A Parameter is not assigned while an UNLINKED shallow copy may still share the parameter container with P from
         # the time when P held a plain tensor / callable (what `params` of such a copy resolves to then is a
         # torch.nn.Module lookup-order detail, not documented behaviour).  Linked transforms must keep following P.
-        derived = [v for d in (self.S, self.T) if d is not None for v in d.units]
+        derived = [v for d in (self.S, self.T) if d is not None for v in d.units if v is not u and not getattr(v, "independent", False)]
         as_param = bool(op.get("parameter")) and (u.holder == "parameter" or all(v.link is not None for v in derived))
         u.real.data_(torch.nn.Parameter(new.clone()) if as_param else new.clone())
         u.holder = "parameter" if as_param else "buffer"
@@ -1571,7 +1749,7 @@ class C09Machine(VMachine):
         u.N = N
         u.buf = "none" if u.nonrigid else "na"
         self.replaced(u)
-        self.after_replacing("unlink_data")
+        self.after_replacing("unlink_data", op)
 
     def x_call(self, who, op):
         s = self.sub(who)
@@ -1660,9 +1838,22 @@ class C09Machine(VMachine):
     def unit_only(self, pred=lambda u: True):
         return self.live() and not self.P.composite and pred(self.P.units[0])
 
+    OBSERVE_NOW = ["fields", "fields", "flow", "points"]
+    OBSERVE_LATER = ["attrs"]  # reading the public buffers updates nothing: the state is left as it is either way
+
     def emit(self, op, data):
-        op["probe"] = data.draw(st.sampled_from([True, True, False]))
+        """Is the new state looked at straight away (fields / one read path, usually followed by a call), or left as it is
+        - buffers cleared, nothing recomputed - for the operations that follow (derivation of inverses / copies, reads)?"""
+        if data.draw(st.sampled_from([False, False, True])):
+            op["observe"] = data.draw(st.sampled_from(self.OBSERVE_LATER))
+            op["probe"] = False
+        else:
+            op["observe"] = data.draw(st.sampled_from(self.OBSERVE_NOW))
+            op["probe"] = data.draw(st.sampled_from([True, True, False]))
         self.do(op)
+
+    def draw_observe(self, data):
+        return data.draw(st.sampled_from(self.OBSERVE_NOW + self.OBSERVE_LATER + ["tensor", "disp"]))
 
     def draw_target(self, data, pred):
         idx = [i for i, u in enumerate(self.P.units) if pred(u)]
@@ -1796,6 +1987,8 @@ class C09Machine(VMachine):
     @precondition(lambda self: self.unit_only(lambda u: u.kind == "ddf" and u.holder != "callable"))
     @rule(data=st.data())
     def r_fit_b(self, data):
+        """fit() of a transform whose buffers exist (u of a strided, resized model is not a view of the parameters)"""
+        self.do({"op": data.draw(st.sampled_from(["update", "call"]))})
         self.emit({"op": "fit", "fill": data.draw(fills(self.D))}, data)
 
     # -- derived transforms
@@ -1815,6 +2008,24 @@ class C09Machine(VMachine):
     def r_copy(self, data):
         self.emit({"op": "copy"}, data)
 
+    @precondition(lambda self: self.unit_only(lambda u: u.holder != "callable" and u.link is None) and not self.keeps_link())
+    @rule(data=st.data())
+    def r_data_copy(self, data):
+        u = self.P.units[0]
+        self.emit({"op": "data_copy", "fill": data.draw(fills(self.D, u.nonrigid)),
+                   "N": data.draw(st.sampled_from([u.batch(), u.batch(), 3 - u.batch() if u.batch() in (1, 2) else 1]))}, data)
+
+    def draw_wrap(self, data, who="S"):
+        op = {"op": "wrap", "who": who, "observe": self.draw_observe(data)}
+        if data.draw(st.booleans()):
+            op["extra"] = {"pos": data.draw(st.sampled_from(["before", "after"])), "fill": data.draw(fills(self.D, False))}
+        return op
+
+    @precondition(lambda self: self.unit_only() and not self.keeps_link())
+    @rule(data=st.data())
+    def r_wrap(self, data):
+        self.do(self.draw_wrap(data))
+
     @precondition(lambda self: self.unit_only(lambda u: u.nonrigid and u.holder in ("buffer", "parameter")) and not self.keeps_link())
     @rule(data=st.data())
     def r_grid_copy(self, data):
@@ -1830,14 +2041,20 @@ class C09Machine(VMachine):
         self.do(op)
 
     @precondition(lambda self: self.live() and self.invertible(self.P) and not self.keeps_link())
-    @rule(link=st.booleans(), ub=st.booleans())
-    def r_inverse(self, link, ub):
-        self.do({"op": "inverse", "link": link, "update_buffers": ub})
+    @rule(link=st.booleans(), ub=st.booleans(), data=st.data())
+    def r_inverse(self, link, ub, data):
+        self.do(self.inverse_op(data, link, ub))
+
+    def inverse_op(self, data, link, ub, who="S"):
+        op = {"op": "inverse", "who": who, "link": link, "update_buffers": ub, "observe": self.draw_observe(data)}
+        if link and ub and data.draw(st.booleans()):
+            op["via"] = "inv"
+        return op
 
     @precondition(lambda self: self.live() and self.S is None and self.FAMILY in ("linked", "composite") and self.invertible(self.P))
-    @rule(ub=st.booleans())
-    def r_inverse_b(self, ub):
-        self.do({"op": "inverse", "link": True, "update_buffers": ub})
+    @rule(ub=st.booleans(), data=st.data())
+    def r_inverse_b(self, ub, data):
+        self.do(self.inverse_op(data, True, ub))
 
     def draw_link_other(self, data, who="S"):
         src = self.P if who == "S" else self.S
@@ -1845,7 +2062,7 @@ class C09Machine(VMachine):
         op = {"op": "link_other", "who": who, "inplace": data.draw(st.booleans()),
               "qholder": data.draw(st.sampled_from(["buffer", "parameter", "callable", "none"])),
               "prep": data.draw(st.sampled_from(["none", "update", "call"])),
-              "fill": data.draw(fills(self.D, u.nonrigid))}
+              "fill": data.draw(fills(self.D, u.nonrigid)), "observe": self.draw_observe(data)}
         if u.kind == "lin":
             op["invert"] = data.draw(st.booleans())
         if u.kind in ("svf", "svffd"):
@@ -1918,15 +2135,21 @@ class C09Machine(VMachine):
         if self.invertible(S):
             hows += ["inverse/link", "inverse/link", "inverse"]
         if not S.composite:
-            hows += ["link_other", "unlink_copy"]
+            hows += ["link_other", "unlink_copy", "wrap"]
+            if S.units[0].holder != "callable" and S.units[0].link is None:
+                hows.append("data_copy")
         how = data.draw(st.sampled_from(hows))
         if how == "copy":
-            return {"op": "copy", "who": "T"}
+            return {"op": "copy", "who": "T", "observe": self.draw_observe(data)}
         if how == "link_other":
             return self.draw_link_other(data, "T")
         if how == "unlink_copy":
             return {"op": "unlink_copy", "who": "T", "fill": data.draw(fills(self.D, S.units[0].nonrigid))}
-        return {"op": "inverse", "who": "T", "link": how == "inverse/link", "update_buffers": data.draw(st.booleans())}
+        if how == "wrap":
+            return self.draw_wrap(data, "T")
+        if how == "data_copy":
+            return {"op": "data_copy", "who": "T", "fill": data.draw(fills(self.D, S.units[0].nonrigid)), "observe": self.draw_observe(data)}
+        return self.inverse_op(data, how == "inverse/link", data.draw(st.booleans()), "T")
 
     @precondition(lambda self: self.live() and self.S is not None and (not self.S.composite or self.invertible(self.S)))
     @rule(data=st.data())
@@ -1949,7 +2172,7 @@ class C09Machine(VMachine):
         self.do({"op": "t_unlink_data", "fill": data.draw(fills(self.D, self.T.units[0].nonrigid))})
 
     # -- replacement of the parameters a linked transform refers to, then observation of the linked transform
-    def draw_replace(self, data):
+    def draw_replace(self, data, extra=False):
         """Ops that make a member of P hold other parameters: replacing the tensor (data_ with the same / another batch
         size, public setter, fit), rewriting it in place (reset_parameters, optimiser-style edit), or - with callable
         parameters - another prediction (re-conditioning / edited closure) fetched by update() or a call."""
@@ -1957,7 +2180,8 @@ class C09Machine(VMachine):
         i = data.draw(st.sampled_from(idx))
         u = self.P.units[i]
         if u.holder == "callable":
-            how = data.draw(st.sampled_from(["condition_", "edit", "reset"] + ([] if self.P.composite else ["unlink_data"])))
+            how = data.draw(st.sampled_from(["condition_", "edit", "reset"] + ([] if self.P.composite else ["unlink_data"])
+                                            + (["condition_"] if extra else [])))
         else:
             hows = ["data_", "data_", "data_N", "edit", "reset"]
             if u.kind == "lin":
@@ -1966,6 +2190,12 @@ class C09Machine(VMachine):
                 hows.append("fit")
             if not self.P.composite:
                 hows.append("unlink_data")
+            if extra:
+                hows.append("condition_")
+                if u.nonrigid:
+                    hows.append("clear_buffers")
+                if u.nonrigid and not self.P.composite:
+                    hows += ["grid_", "grid_"]
             how = data.draw(st.sampled_from(hows))
         if how in ("data_", "data_N"):
             N = u.batch() if how == "data_" else 3 - u.batch() if u.batch() in (1, 2) else 1
@@ -1982,11 +2212,15 @@ class C09Machine(VMachine):
         elif how == "condition_":
             c = data.draw(conds())
             ops = [{"op": "condition_", "args": c["args"], "kwargs": c["kwargs"]}]
+        elif how == "clear_buffers":
+            ops = [{"op": "clear_buffers"}]
+        elif how == "grid_":
+            ops = [self.draw_grid_op(data, "grid_")]
         else:
             ops = [{"op": "edit", "target": i, "how": {"kind": "add", "key": data.draw(st.integers(0, 999)), "amp": 0.1}}]
         for op in ops:
             op["probe"] = False
-        if u.holder == "callable" or data.draw(st.sampled_from([False, False, True])):
+        if not extra and (u.holder == "callable" or data.draw(st.sampled_from([False, False, True]))):
             ops.append(data.draw(st.sampled_from([{"op": "update"}, {"op": "call"}])))  # P fetches / buffers its new state
         return ops
 
@@ -1999,7 +2233,7 @@ class C09Machine(VMachine):
         if not self.P.composite:
             ways += ["link_other"]
         if data.draw(st.sampled_from(ways)) == "inverse":
-            self.do({"op": "inverse", "link": True, "update_buffers": data.draw(st.booleans())})
+            self.do(self.inverse_op(data, True, data.draw(st.booleans())))
         else:
             self.do(self.draw_link_other(data))
 
@@ -2048,6 +2282,95 @@ class C09Machine(VMachine):
         elif mid != "none":
             self.do({"op": mid})
         self.do({"op": data.draw(st.sampled_from(["t_call", "t_call", "t_update"]))})
+
+    # -- every read path of every transform under test
+    READ_HOWS = ["tensor", "disp", "flow", "points", "attrs", "attrs", "tcall"]
+
+    def draw_read(self, data, who=None):
+        if who is None:
+            who = data.draw(st.sampled_from(["P"] + [w for w, s in (("S", self.S), ("T", self.T)) if s is not None]))
+        return {"op": "read", "who": who, "how": data.draw(st.sampled_from(self.READ_HOWS))}
+
+    @precondition(lambda self: self.live())
+    @rule(data=st.data())
+    def r_read(self, data):
+        self.do(self.draw_read(data))
+
+    @precondition(lambda self: self.has(lambda u: u.holder == "callable" and u.link is None))
+    @rule(data=st.data())
+    def r_scn_repredict(self, data):
+        """A transform with callable parameters has predicted (update / call), then its prediction changes - other
+        conditioning, edited closure, reset of the buffered prediction - and the new state is not looked at (only the public
+        buffers are read); then one of the transforms under test is read through one path."""
+        self.do({"op": data.draw(st.sampled_from(["update", "call"]))})
+        i = self.draw_target(data, lambda u: u.holder == "callable" and u.link is None)
+        how = data.draw(st.sampled_from(["condition_", "condition_", "edit", "reset"]))
+        if how == "condition_":
+            c = data.draw(conds())
+            op = {"op": "condition_", "args": c["args"], "kwargs": c["kwargs"]}
+        elif how == "edit":
+            op = {"op": "edit", "target": i, "how": {"kind": "add", "key": data.draw(st.integers(0, 999)), "amp": 0.1}}
+        else:
+            op = {"op": "reset", "target": i}
+        op.update(observe="attrs", probe=False)
+        self.do(op)
+        if not self.dead:
+            self.do(self.draw_read(data))
+
+    def derivable(self):
+        return self.live() and (self.invertible(self.P) or not self.P.composite)
+
+    @precondition(lambda self: self.derivable() and self.FAMILY in ("dense", "spline", "composite"))
+    @rule(data=st.data())
+    def r_scn_replace_derive_b(self, data):
+        self.scn_replace_derive(data)
+
+    @precondition(lambda self: self.derivable())
+    @rule(data=st.data())
+    def r_scn_replace_derive(self, data):
+        self.scn_replace_derive(data)
+
+    def scn_replace_derive(self, data):
+        """Buffers computed (or not) -> the parameters / grid / conditioning are replaced or reset and the new state is NOT
+        looked at -> a transform is derived from the primary in that state (inverse(link, update_buffers) / .inv, copy,
+        data(arg) copy, SequentialTransform around it and the inverse of that) -> the derived transform is read through
+        one path without having been called."""
+        warm = data.draw(st.sampled_from(["none", "update", "call", "call"]))
+        if warm != "none":
+            self.do({"op": warm})
+        ops = self.draw_replace(data, extra=True)
+        ops[0]["observe"] = data.draw(st.sampled_from(self.OBSERVE_LATER))
+        for op in ops:
+            self.do(op)
+        if self.dead or not self.derivable():
+            return
+        ways = []
+        if self.invertible(self.P):
+            ways += ["inverse", "inverse", "inverse"]
+        if not self.P.composite:
+            ways += ["copy", "wrap", "wrap"]
+            if self.P.units[0].holder != "callable" and self.P.units[0].link is None:
+                ways.append("data_copy")
+        way = data.draw(st.sampled_from(ways))
+        who = "S"
+        if way == "inverse":
+            op = self.inverse_op(data, data.draw(st.booleans()), data.draw(st.sampled_from([True, True, False])))
+        elif way == "copy":
+            op = {"op": "copy"}
+        elif way == "data_copy":
+            op = {"op": "data_copy", "fill": data.draw(fills(self.D, self.P.units[0].nonrigid))}
+        else:
+            op = self.draw_wrap(data)
+        op["observe"] = "none"
+        self.do(op)
+        if self.S is None:
+            return
+        if way == "wrap" and self.invertible(self.S) and data.draw(st.booleans()):
+            op = self.inverse_op(data, data.draw(st.booleans()), data.draw(st.sampled_from([True, True, False])), "T")
+            op["observe"] = "none"
+            self.do(op)
+            who = "T" if self.T is not None else "S"
+        self.do(self.draw_read(data, who))
 
     @precondition(lambda self: self.has(lambda u: u.kind == "lin" and u.holder != "callable" and u.link is None))
     @rule(data=st.data())
